@@ -1528,8 +1528,8 @@ Proof.
   unfold Parser.add_run in E. cbn [pbind] in E. cbn [Z.eqb Pos.eqb orb] in E. rewrite Hu in E. discriminate.
 Qed.
 
-Lemma sim_loop fuel : forall st p wasq stF, minv st -> oinv caps st -> ms_unit st = None -> (exists cs, Sim cs st p) ->
-  scan_loop_full fuel tbm mco st p wasq = POk stF -> minv stF /\ oinv caps stF.
+Lemma sim_loop fuel : forall st p wasq stF, minv st -> oinv (fun k => zmem k caps) st -> ms_unit st = None -> (exists cs, Sim cs st p) ->
+  scan_loop_full fuel tbm mco st p wasq = POk stF -> minv stF /\ oinv (fun k => zmem k caps) stF.
 Proof.
   induction fuel as [|f IH]; intros st p wasq stF Iv Ho Hu [cs SM] E; [discriminate|].
   cbn [Parser.scan_loop_full] in E. destruct p as [|c p']; [inversion E; subst; auto|].
@@ -1541,7 +1541,7 @@ Proof.
     destruct q as [|c0 q']; [discriminate|].
     destruct (scan_round tbm mco st' (c0 :: q') false) as [[st2 nxt2]|e q2| | |] eqn:ER2; cbn [pbind] in E; try discriminate.
     exact (doomed_round st' (c0 :: q') false st2 nxt2 H63 U' ER2).
-  - pose proof (scan_round_o caps tbm Hslot Hname is_word_char to_lower simple_fold participates cat_in cat_name mco st (c :: p') wasq st' nxt Iv Ho Hu HA ER) as Ho'.
+  - pose proof (scan_round_o (fun k => zmem k caps) tbm Hslot Hname is_word_char to_lower simple_fold participates cat_in cat_name mco st (c :: p') wasq st' nxt Iv Ho Hu HA ER) as Ho'.
     destruct nxt as [[q wq]|].
     + cbn [round_res] in RR. destruct RR as [R1 [R2 _]]. eapply IH; [exact R1 | exact Ho' | exact R2 | exact NX | exact E].
     + inversion E; subst. cbn [round_res] in RR. auto.
@@ -1566,7 +1566,7 @@ Local Notation parse := (parse is_word_char to_lower simple_fold participates ca
 Theorem parse_tree_wf o mco_flag p t caps captop :
   useE o = false -> captop < maxint32 ->
   parse o mco_flag p = Ok (PR_Tree t caps captop) ->
-  wf caps t.
+  wf (fun k => zmem k caps) t.
 Proof.
   intros HE HT E. unfold Parser.parse in E.
   destruct (negb pl_bounds_ok); [discriminate|].
@@ -1595,7 +1595,7 @@ Proof.
     as [st| | | |] eqn:ELP; cbn [pbind] in ES; try discriminate.
   assert (I0 : minv st0).
   { split; [|reflexivity]. constructor; cbn; auto; (split; [constructor | reflexivity]). }
-  assert (O0 : oinv (t_caps tb) st0) by (apply oinv_init; apply zmem_In; exact TZ).
+  assert (O0 : oinv (fun k => zmem k (t_caps tb)) st0) by (apply oinv_init; apply zmem_In; exact TZ).
   assert (S0 : exists cs, Sim is_word_char to_lower simple_fold cat_in cat_name mco stF cs st0 p).
   { exists (mkCS c_init o [] false). constructor; cbn; auto.
     - apply oeqv_refl.
@@ -1607,7 +1607,7 @@ Proof.
   destruct (ms_stack st); [|discriminate].
   destruct (add_group cat_in st) as [st'| | | |] eqn:EG; cbn [pbind] in ES; try discriminate.
   destruct (ms_unit st') as [u|] eqn:EU; [|discriminate]. inversion ES; subst u.
-  exact (scan_end_o (t_caps tb) (captab_main tb) Hslot Hname is_word_char to_lower simple_fold participates cat_in cat_name st st' t (proj1 IvF) OF EG EU).
+  exact (scan_end_o (fun k => zmem k (t_caps tb)) (captab_main tb) Hslot Hname is_word_char to_lower simple_fold participates cat_in cat_name st st' t (proj1 IvF) OF EG EU).
 Qed.
 
 End Final.
